@@ -24,10 +24,30 @@ Everything is read by an `ast` pass / from the ASN.1 text; nothing of the target
                               attribute of self) in `get_cluster_information_container`, `get_cluster_operation_container`
                               and `should_transmit_vam` of `VBSClusteringManager` that are NOT inside `with self._lock`,
                               and `CLUSTER_LOCK_REENTRANT`.
+
+Round 4:
+* `PH_LAT_LO/HI`, `PH_LON_LO/HI`  the interval of rounded offsets `_get_path_history` ACCEPTS (the complement of its
+                              `if <test>: break` guards; recognised tests: `not (a <= x <= b)`, `x < a`, `x > b`, `or` of
+                              those, `abs(x) > c`, `max(abs(x), abs(y)) > c`), `PH_CAP` (points after which the loop stops),
+                              `PH_DT_LO/HI` (clamp of pathDeltaTime), `PH_DALT` (the deltaAltitude literal),
+                              `PH_NEWEST_FIRST` (iteration `reversed(...)` over a list filled by `append`), `PH_STORE_CAP`
+                              (entries kept by `_update_send_state`), and the ASN.1 side: `DeltaLatitude_*`,
+                              `DeltaLongitude_*`, `DeltaAltitude_*`, `PathDeltaTime_*`, `Path_size_hi`,
+                              `LF_PATH_SIZE_HI` (the `WITH COMPONENTS {..., pathHistory (SIZE (0..n))}` of the CAM module).
+* `VAM_LDM_SNAPSHOT_DEEP`     1 iff `send_next_vam` / the VAM callback deep-copies the message (`copy.deepcopy(...)` /
+                              `deepcopy(...)`) on the way to BTP, 0 for a shallow `.copy()` / `dict(...)` / no snapshot.
+  `VAM_LDM_FEED_GUARDED`      1 iff every statement of the `if self.vru_basic_service_ldm is not None:` block lies in a
+                              `try` with a handler for `Exception` (or bare), `VAM_LDM_BEFORE_BTP` 1 iff that block
+                              precedes `btp_data_request`.
+  `CHOICE_DEEPCOPYABLE`       false iff the value written as `clusterBoundingBoxShape` is an instance of a module-level
+                              tuple subclass whose `__new__` needs other than one argument and that defines none of
+                              `__reduce__`, `__reduce_ex__`, `__getnewargs__`, `__getnewargs_ex__`, `__deepcopy__`
+                              (copy / deepcopy / pickle rebuild a tuple subclass as `cls.__new__(cls, <tuple>)`).
 """
 from __future__ import annotations
 
 import ast
+import re
 
 import gen_lean
 from gen_lean import write_if_changed, src
@@ -241,6 +261,305 @@ def cluster_lock_facts():
     return out, name == "RLock"
 
 
+# ---------------------------------------------------------------------------------------------
+# round 4: path history of the CAM low-frequency container
+
+
+BIG = 10 ** 12          # "no bound" (an obligation `lo >= DeltaLatitude_lo` then fails)
+
+
+def _int_const(node):
+    """integer value of a literal (with unary minus), else None"""
+    if isinstance(node, ast.Constant) and isinstance(node.value, int) and not isinstance(node.value, bool):
+        return node.value
+    if isinstance(node, ast.UnaryOp) and isinstance(node.op, ast.USub):
+        v = _int_const(node.operand)
+        return None if v is None else -v
+    return None
+
+
+def _abs_of(node):
+    if isinstance(node, ast.Call) and isinstance(node.func, ast.Name) and node.func.id == "abs" and len(node.args) == 1 \
+            and isinstance(node.args[0], ast.Name):
+        return node.args[0].id
+    return None
+
+
+class _Accept:
+    """accepted interval per variable, narrowed by every break guard"""
+
+    def __init__(self, names):
+        self.iv = {n: [-BIG, BIG] for n in names}
+
+    def ge(self, n, v):
+        self.iv[n][0] = max(self.iv[n][0], v)
+
+    def le(self, n, v):
+        self.iv[n][1] = min(self.iv[n][1], v)
+
+    def reject(self, test):
+        """the loop is left when `test` holds: narrow the accepted region to `not test`"""
+        if isinstance(test, ast.BoolOp) and isinstance(test.op, ast.Or):
+            for v in test.values:
+                self.reject(v)
+            return
+        if isinstance(test, ast.UnaryOp) and isinstance(test.op, ast.Not):
+            self.require(test.operand)
+            return
+        if isinstance(test, ast.Compare) and len(test.ops) == 1:
+            l, op, r = test.left, type(test.ops[0]).__name__, test.comparators[0]
+            if _int_const(l) is not None and _int_const(r) is None:
+                l, op, r = r, FLIP.get(op, op), l
+            c = _int_const(r)
+            if c is not None and op in OPS:
+                names = None
+                if isinstance(l, ast.Name) and l.id in self.iv:
+                    if op == "Lt":
+                        self.ge(l.id, c)
+                    elif op == "LtE":
+                        self.ge(l.id, c + 1)
+                    elif op == "Gt":
+                        self.le(l.id, c)
+                    else:
+                        self.le(l.id, c - 1)
+                    return
+                if _abs_of(l) in self.iv:
+                    names = [_abs_of(l)]
+                elif isinstance(l, ast.Call) and isinstance(l.func, ast.Name) and l.func.id == "max" and l.args \
+                        and all(_abs_of(a) in self.iv for a in l.args):
+                    names = [_abs_of(a) for a in l.args]
+                if names and op in ("Gt", "GtE"):
+                    b = c if op == "Gt" else c - 1
+                    for n in names:
+                        self.ge(n, -b)
+                        self.le(n, b)
+                    return
+        raise ValueError(f"_get_path_history: unrecognised break guard `{ast.unparse(test)}`")
+
+    def require(self, test):
+        """the loop continues only when `test` holds"""
+        if isinstance(test, ast.BoolOp) and isinstance(test.op, ast.And):
+            for v in test.values:
+                self.require(v)
+            return
+        if isinstance(test, ast.Compare):
+            terms = [test.left] + list(test.comparators)
+            for a, op, b in zip(terms, test.ops, terms[1:]):
+                op = type(op).__name__
+                if op not in OPS:
+                    raise ValueError(f"_get_path_history: unrecognised guard `{ast.unparse(test)}`")
+                if isinstance(b, ast.Name) and b.id in self.iv and _int_const(a) is not None:
+                    a, op, b = b, FLIP[op], a
+                c = _int_const(b)
+                if not (isinstance(a, ast.Name) and a.id in self.iv and c is not None):
+                    raise ValueError(f"_get_path_history: unrecognised guard `{ast.unparse(test)}`")
+                if op == "Lt":
+                    self.le(a.id, c - 1)
+                elif op == "LtE":
+                    self.le(a.id, c)
+                elif op == "Gt":
+                    self.ge(a.id, c + 1)
+                else:
+                    self.ge(a.id, c)
+            return
+        raise ValueError(f"_get_path_history: unrecognised guard `{ast.unparse(test)}`")
+
+
+def path_history_facts():
+    tree = ast.parse(src(CAM_TM))
+    fn = _func(tree, "CAMTransmissionManagement", "_get_path_history")
+    loops = [n for n in ast.walk(fn) if isinstance(n, ast.For)]
+    if len(loops) != 1 or not isinstance(loops[0].target, ast.Tuple) or len(loops[0].target.elts) != 3:
+        raise ValueError("_get_path_history: expected one loop over (lat, lon, time) entries")
+    loop = loops[0]
+    v_lat, v_lon, v_t = (e.id for e in loop.target.elts)
+    it = loop.iter
+    newest_first = int(isinstance(it, ast.Call) and isinstance(it.func, ast.Name) and it.func.id == "reversed"
+                       and len(it.args) == 1 and _is_self_attr(it.args[0], "_path_history"))
+    if not newest_first and not _is_self_attr(it, "_path_history"):
+        raise ValueError(f"_get_path_history: unknown iteration `{ast.unparse(it)}`")
+    # the rounded offsets: locals assigned `round(<expr mentioning the loop variable>)`
+    role = {}
+    dt = None
+    for st in loop.body:
+        if isinstance(st, ast.Assign) and len(st.targets) == 1 and isinstance(st.targets[0], ast.Name):
+            used = {n.id for n in ast.walk(st.value) if isinstance(n, ast.Name)}
+            rounds = [n for n in ast.walk(st.value) if isinstance(n, ast.Call) and isinstance(n.func, ast.Name) and n.func.id == "round"]
+            if len(rounds) != 1:
+                raise ValueError(f"_get_path_history: `{ast.unparse(st)}` is not a rounded quantity")
+            if v_lat in used and st.value is rounds[0]:
+                role["lat"] = st.targets[0].id
+            elif v_lon in used and st.value is rounds[0]:
+                role["lon"] = st.targets[0].id
+            elif v_t in used:
+                # max(lo, min(hi, round(...)))
+                v = st.value
+                ok = (isinstance(v, ast.Call) and getattr(v.func, "id", "") == "max" and len(v.args) == 2
+                      and _int_const(v.args[0]) is not None and isinstance(v.args[1], ast.Call)
+                      and getattr(v.args[1].func, "id", "") == "min" and len(v.args[1].args) == 2
+                      and _int_const(v.args[1].args[0]) is not None and v.args[1].args[1] is rounds[0])
+                if not ok:
+                    raise ValueError(f"_get_path_history: pathDeltaTime is not `max(lo, min(hi, round(...)))`: `{ast.unparse(v)}`")
+                dt = (_int_const(v.args[0]), _int_const(v.args[1].args[0]))
+            else:
+                raise ValueError(f"_get_path_history: unexpected assignment `{ast.unparse(st)}`")
+    if set(role) != {"lat", "lon"} or dt is None:
+        raise ValueError("_get_path_history: rounded latitude / longitude offsets or pathDeltaTime not found")
+    acc = _Accept([role["lat"], role["lon"]])
+    cap = None
+    appended = False
+    for st in loop.body:
+        if isinstance(st, ast.If):
+            if not (len(st.body) == 1 and isinstance(st.body[0], ast.Break) and not st.orelse):
+                raise ValueError(f"_get_path_history: `if {ast.unparse(st.test)}` does not simply leave the loop")
+            t = st.test
+            is_len = (isinstance(t, ast.Compare) and len(t.ops) == 1 and isinstance(t.left, ast.Call)
+                      and getattr(t.left.func, "id", "") == "len" and _int_const(t.comparators[0]) is not None)
+            if is_len:
+                if not appended:
+                    raise ValueError("_get_path_history: the size test precedes the append")
+                op, c = type(t.ops[0]).__name__, _int_const(t.comparators[0])
+                cap = {"GtE": c, "Gt": c + 1, "Eq": c}.get(op)
+                if cap is None:
+                    raise ValueError(f"_get_path_history: unknown size test `{ast.unparse(t)}`")
+            else:
+                if appended:
+                    raise ValueError("_get_path_history: a range guard follows the append")
+                acc.reject(t)
+        elif isinstance(st, ast.Expr) and isinstance(st.value, ast.Call) and isinstance(st.value.func, ast.Attribute) \
+                and st.value.func.attr == "append":
+            appended = True
+    if not appended:
+        raise ValueError("_get_path_history: no append in the loop")
+    dalt = [_int_const(v) for n in ast.walk(loop) if isinstance(n, ast.Dict) for k, v in zip(n.keys, n.values)
+            if isinstance(k, ast.Constant) and k.value == "deltaAltitude"]
+    if len(dalt) != 1 or dalt[0] is None:
+        raise ValueError("_get_path_history: deltaAltitude is not one integer literal")
+    # the store: `_update_send_state` appends and drops the oldest entry beyond the cap
+    up = _func(tree, "CAMTransmissionManagement", "_update_send_state")
+    caps = [(_int_const(n.test.comparators[0]), type(n.test.ops[0]).__name__) for n in ast.walk(up)
+            if isinstance(n, ast.If) and isinstance(n.test, ast.Compare) and len(n.test.ops) == 1
+            and isinstance(n.test.left, ast.Call) and getattr(n.test.left.func, "id", "") == "len"
+            and n.test.left.args and _is_self_attr(n.test.left.args[0], "_path_history")]
+    appends = [n for n in ast.walk(up) if isinstance(n, ast.Call) and isinstance(n.func, ast.Attribute)
+               and n.func.attr == "append" and _is_self_attr(n.func.value, "_path_history")]
+    pops = [n for n in ast.walk(up) if isinstance(n, ast.Call) and isinstance(n.func, ast.Attribute)
+            and n.func.attr == "pop" and _is_self_attr(n.func.value, "_path_history")
+            and len(n.args) == 1 and _int_const(n.args[0]) == 0]
+    if len(caps) != 1 or caps[0][0] is None or caps[0][1] not in ("Gt", "GtE") or len(appends) != 1 or len(pops) != 1:
+        raise ValueError("_update_send_state: path history store is not `append` + `if len > n: pop(0)`")
+    store_cap = caps[0][0] if caps[0][1] == "Gt" else caps[0][0] - 1
+    (la_lo, la_hi), (lo_lo, lo_hi) = acc.iv[role["lat"]], acc.iv[role["lon"]]
+    return {"PH_LAT_LO": la_lo, "PH_LAT_HI": la_hi, "PH_LON_LO": lo_lo, "PH_LON_HI": lo_hi,
+            "PH_CAP": cap if cap is not None else BIG, "PH_DT_LO": dt[0], "PH_DT_HI": dt[1], "PH_DALT": dalt[0],
+            "PH_NEWEST_FIRST": newest_first, "PH_STORE_CAP": store_cap}
+
+
+def path_asn1_facts():
+    import gen_fac
+    text = gen_fac.asn1_texts()["Cam"]
+    ints = gen_fac.parse_integers(text)
+    out = []
+    for n in ("DeltaLatitude", "DeltaLongitude", "DeltaAltitude", "PathDeltaTime"):
+        if n not in ints:
+            raise ValueError(f"Cam: INTEGER type {n} not found in the ASN.1 text")
+        lo, hi, named = ints[n]
+        out.append((f"{n}_lo", lo))
+        out.append((f"{n}_hi", hi))
+        for k, v in sorted(named.items(), key=lambda kv: kv[1]):
+            out.append((f"{n}_{k}", v))
+    m = re.search(r"^\s*Path\s*::=\s*SEQUENCE\s*\(\s*SIZE\s*\(\s*(\d+)\s*\.\.\s*(\d+)\s*\)\s*\)\s*OF\s+PathPoint", text, re.M)
+    if not m:
+        raise ValueError("Cam: `Path ::= SEQUENCE (SIZE(..)) OF PathPoint` not found")
+    out.append(("Path_size_hi", int(m.group(2))))
+    m = re.search(r"BasicVehicleContainerLowFrequency\s*\(\s*WITH COMPONENTS\s*\{[^}]*pathHistory\s*\(\s*SIZE\s*\(\s*(\d+)\s*\.\.\s*(\d+)\s*\)", text)
+    if not m:
+        raise ValueError("Cam: the `WITH COMPONENTS {..., pathHistory (SIZE (..))}` constraint of the LF container not found")
+    out.append(("LF_PATH_SIZE_HI", int(m.group(2))))
+    return out
+
+
+# ---------------------------------------------------------------------------------------------
+# round 4: the VAM on its way to BTP (LDM snapshot / feed) and the CHOICE value of the cluster container
+
+
+def vam_ldm_facts():
+    tree = ast.parse(src(VAM_TM))
+    deep = 0
+    for name in ("send_next_vam", "location_service_callback"):
+        fn = _func(tree, "VAMTransmissionManagement", name)
+        for n in ast.walk(fn):
+            if isinstance(n, ast.Call):
+                f = n.func
+                fname = f.attr if isinstance(f, ast.Attribute) else getattr(f, "id", "")
+                if fname == "deepcopy":
+                    deep = 1
+    fn = _func(tree, "VAMTransmissionManagement", "send_next_vam")
+
+    def is_ldm_test(t):
+        return any(_is_self_attr(n, "vru_basic_service_ldm") for n in ast.walk(t))
+
+    blocks = [n for n in ast.walk(fn) if isinstance(n, ast.If) and is_ldm_test(n.test)]
+    if len(blocks) > 1:
+        raise ValueError("send_next_vam: more than one LDM block")
+    btp = [n.lineno for n in ast.walk(fn) if isinstance(n, ast.Call) and isinstance(n.func, ast.Attribute)
+           and n.func.attr == "btp_data_request"]
+    if len(btp) != 1:
+        raise ValueError("send_next_vam: expected one btp_data_request")
+    if not blocks:
+        return deep, 1, 0
+    blk = blocks[0]
+
+    def catches_all(tr):
+        return any(h.type is None or (isinstance(h.type, ast.Name) and h.type.id in ("Exception", "BaseException"))
+                   for h in tr.handlers)
+
+    guarded = int(all(isinstance(st, ast.Try) and catches_all(st) for st in blk.body))
+    if not guarded:
+        # the whole `if` inside a try that swallows?
+        for n in ast.walk(fn):
+            if isinstance(n, ast.Try) and catches_all(n) and any(blk is m for b in n.body for m in ast.walk(b)):
+                # only counts when the handler does not leave the function before the encoding
+                if not any(isinstance(x, (ast.Return, ast.Raise)) for h in n.handlers for x in ast.walk(h)):
+                    if not any(isinstance(c, ast.Call) and isinstance(c.func, ast.Attribute) and c.func.attr == "btp_data_request"
+                               for b in n.body for c in ast.walk(b)):
+                        guarded = 1
+    return deep, guarded, int(blk.lineno < btp[0])
+
+
+def choice_deepcopyable():
+    tree = ast.parse(src(VRU_CL))
+    fn = _func(tree, "VBSClusteringManager", "get_cluster_information_container")
+    vals = [v for n in ast.walk(fn) if isinstance(n, ast.Dict) for k, v in zip(n.keys, n.values)
+            if isinstance(k, ast.Constant) and k.value == "clusterBoundingBoxShape"]
+    if len(vals) != 1:
+        raise ValueError("get_cluster_information_container: clusterBoundingBoxShape not written once")
+    v = vals[0]
+    if isinstance(v, ast.Tuple):
+        return True
+    if not (isinstance(v, ast.Call) and isinstance(v.func, ast.Name)):
+        raise ValueError(f"clusterBoundingBoxShape: unknown value `{ast.unparse(v)}`")
+    if v.func.id == "tuple":
+        return True
+    cls = [c for c in tree.body if isinstance(c, ast.ClassDef) and c.name == v.func.id]
+    if len(cls) != 1:
+        raise ValueError(f"clusterBoundingBoxShape: class {v.func.id} not found at module level")
+    c = cls[0]
+    bases = [getattr(b, "id", getattr(b, "attr", "")) for b in c.bases]
+    methods = {f.name: f for f in c.body if isinstance(f, ast.FunctionDef)}
+    if any(m in methods for m in ("__reduce__", "__reduce_ex__", "__getnewargs__", "__getnewargs_ex__", "__deepcopy__")):
+        return True
+    if "tuple" not in bases:
+        raise ValueError(f"class {c.name}: not a tuple subclass (bases {bases}); copy behaviour unknown")
+    new = methods.get("__new__")
+    if new is None:
+        return True
+    a = new.args
+    required = len(a.args) - 1 - len(a.defaults)          # positional parameters after `cls` without default
+    takes_one = required <= 1 and (len(a.args) - 1 >= 1 or a.vararg is not None)
+    return bool(takes_one)
+
+
 def vehicle_role_enum():
     import gen_fac
     return gen_fac.parse_enum(gen_fac.asn1_texts()["Cam"], "VehicleRole")
@@ -276,5 +595,15 @@ def gen_fac_c11():
                    ("should_transmit_vam", "CLUSTER_SHOULD_TX")):
         body += f"def {tag}_UNLOCKED : List (String × Nat) := [" + ", ".join(f'("{a}", {ln})' for a, ln in facts[m]) + "]\n"
     body += f"def CLUSTER_LOCK_REENTRANT : Bool := {'true' if reentrant else 'false'}\n"
+    body += "/-- round 4: `_get_path_history` (accepted interval of the rounded offsets, loop cap, pathDeltaTime clamp ...) -/\n"
+    for k, v in path_history_facts().items():
+        body += f"def {k} : Int := {v}\n"
+    body += "/-- the path elements of the ASN.1 text the CAM coder compiles -/\n"
+    for k, v in path_asn1_facts():
+        body += f"def {k} : Int := {v}\n"
+    deep, guarded, before = vam_ldm_facts()
+    body += "/-- round 4: the VAM between construction and BTP -/\n"
+    body += f"def VAM_LDM_SNAPSHOT_DEEP : Nat := {deep}\ndef VAM_LDM_FEED_GUARDED : Nat := {guarded}\ndef VAM_LDM_BEFORE_BTP : Nat := {before}\n"
+    body += f"def CHOICE_DEEPCOPYABLE : Bool := {'true' if choice_deepcopyable() else 'false'}\n"
     body += "end Generated.Fac11\n"
     write_if_changed("FacC11.lean", body)
